@@ -5,7 +5,8 @@ Open Scope Z_scope.
 Inductive c18case :=
 | CSeq (t0 : Z) (prog : list api)      (* API calls issued one after the other (streams with their observed schedule) *)
 | CConc (t0 : Z) (os : list op)        (* the same kind of call issued from concurrent tasks: writes on distinct keys, any batching *)
-| CRoom (n : N).                       (* n accepted changes of one room definition *)
+| CRoom (n : N)                        (* n accepted changes of one room definition *)
+| CRoomBurst (base accepted order : list N).  (* concurrent mutations of one room, each adding one entry; order = observed commit order *)
 
 (* ---- flattening ---- *)
 Definition enc_key (k : lkey) : list Z := let '(r, e, d) := k in [zn r; zn e; d].
@@ -58,9 +59,34 @@ Definition run_trace (c : c18case) : list tev :=
   | CSeq t0 prog => snd (trace_prog t0 prog)
   | CConc t0 os => conc_trace t0 os
   | CRoom _ => []
+  | CRoomBurst _ _ _ => []
   end.
+Definition enc_sets (l : list (list N)) : list Z :=
+  Z.of_nat (length l) :: flat_map (fun e => Z.of_nat (length e) :: map zn e) l.
+Fixpoint dec_sets_n (k : nat) (l : list Z) : option (list (list N)) :=
+  match k with
+  | O => match l with [] => Some [] | _ => None end
+  | S k' => match l with
+            | n :: rest => let m := Z.to_nat n in
+                           if Nat.ltb (length rest) m then None else
+                           match dec_sets_n k' (skipn m rest) with
+                           | Some t => Some (map Z.to_N (firstn m rest) :: t)
+                           | None => None end
+            | [] => None end
+  end.
+Definition dec_sets (l : list Z) : option (list (list N)) :=
+  match l with n :: rest => dec_sets_n (Z.to_nat n) rest | [] => None end.
+(* the oracle for room-modified events: one event per accepted mutation, definitions only grow (no
+   event misses an entry an earlier event carried), the last event carries every accepted entry *)
+Definition nsubset (a b : list N) : bool := forallb (fun x => existsb (N.eqb x) b) a.
+Fixpoint grows (prev : list N) (evs : list (list N)) : bool :=
+  match evs with [] => true | e :: t => nsubset prev e && grows e t end.
+Definition room_events_ok (base accepted : list N) (evs : list (list N)) : bool :=
+  Nat.eqb (length evs) (length accepted) && grows base evs &&
+  match accepted with [] => true | _ => nsubset (base ++ accepted) (last evs []) end.
 Definition run_C18 (c : c18case) : list Z :=
   match c with
+  | CRoomBurst base _ order => enc_sets (room_events base order)
   | CRoom n => [zn n]
   | _ => enc_trace (run_trace c)
   end.
@@ -79,6 +105,7 @@ Fixpoint announced_ok (ow : list lkey) (tr : list tev) : bool :=
 Definition spec_C18 (c : c18case) (obs : list Z) : bool :=
   match c with
   | CRoom n => match obs with [x] => Z.eqb x (zn n) | _ => false end    (* one room-modified event per accepted change *)
+  | CRoomBurst base accepted _ => match dec_sets obs with Some evs => room_events_ok base accepted evs | None => false end
   | _ => match dec_trace (length obs) obs with
          | Some tr => announced_ok [] tr
          | None => false end
